@@ -1257,15 +1257,15 @@ func TestC39(t *testing.T) {
 		}
 	}
 	done := timed("seq")
-	r.Cases("seq", r.N(1500, 100000), func(c *ev.Case) { runSequential(fromCase(c), newReal, seqRandom) })
+	r.Cases("seq", r.N(1500, 60000), func(c *ev.Case) { runSequential(fromCase(c), newReal, seqRandom) })
 	done()
 	done = timed("conc")
-	r.Cases("conc", r.N(300, 20000), func(c *ev.Case) {
+	r.Cases("conc", r.N(300, 12000), func(c *ev.Case) {
 		runConcurrent(fromCase(c), newReal, concParams{posters: 4, perPoster: [2]int{20, 160}, subs: 4, sessions: [2]int{1, 3}, stop: true})
 	})
 	done()
 	done = timed("conc-noread")
-	r.Cases("conc-noread", r.N(150, 10000), func(c *ev.Case) {
+	r.Cases("conc-noread", r.N(150, 6000), func(c *ev.Case) {
 		runConcurrent(fromCase(c), newReal, concParams{posters: 4, perPoster: [2]int{50, 400}, subs: 4, sessions: [2]int{1, 2}, lazyOnly: true, presub: c.Rand.Bool(), stop: true, typeBias: []int{4, 1, 1}})
 	})
 	done()
